@@ -17,6 +17,11 @@ var round2Docs = map[string]map[string]string{
 	"C24": {"C24.R5": "pairing: popped stream-expiry item ⇔ index entry", "C24.R6": "pairing: state entry delete ⇒ deadline record delete"},
 	"C15": {"C15.R6": "error discipline: a child's validation error is returned before the next child"},
 	"C14": {"C14.R6": "K2: the medium's delta base does not depend on the publication's delta flag"},
+	"C21": {"C21.R6": "sibling agreement: a channel created without its ordering flag is upgraded by the publish path"},
+	"C41": {"C41.R4": "value flow: a survey response is addressed to the requesting node on every path"},
+	"C23": {"C23.R6": "K6c: ARGV the script's leave branch uses are supplied by the Remove call site"},
+	"C30": {"C30.R4": "typestate: a pooled (de)compressor is released at most once (reference cleared with the Put)"},
+	"C32": {"C32.R4": "K1: the pooled data encoder is returned only after its buffer was written"},
 	"C27": {"C27.R5": "K1: the control message is published before (and regardless of) the local hub operation"},
 	"C38": {"C38.R4": "K2: the shared position-check time is stamped only when a real check is made"},
 	"C31": {"C31.R3": "K9: base64 decode destination holds the decoded length of the source"},
@@ -54,6 +59,16 @@ func hookRound2(c *Ctx, prop string) {
 		runBaseFollowsEveryPublication(c)
 	case "C16":
 		runPreparedDataComplete(c)
+	case "C21":
+		runOrderedUpgrade(c)
+	case "C41":
+		runSurveyReplyAddressed(c)
+	case "C23":
+		runLeaveBranchArgs(c)
+	case "C30":
+		runPooledObjectReleased(c)
+	case "C32":
+		runEncoderPooledAfterWrite(c)
 	case "C27":
 		runControlBeforeLocal(c)
 	case "C38":
@@ -67,6 +82,282 @@ func hookRound2(c *Ctx, prop string) {
 	case "C02":
 		runPositionPair(c)
 	}
+}
+
+// runOrderedUpgrade (C21.R6): a map channel can be created by a read (createStreamPosition, to pin an
+// epoch) before its first publish; such a channel carries no ordering flag. The publish path must then
+// set mapChannel.ordered (and mark the sorted-key cache dirty) when the options say the channel is
+// ordered, or every later state read sorts by key and ignores scores and direction.
+func runOrderedUpgrade(c *Ctx) {
+	w := c.W
+	add := w.Func("centrifuge", "(*mapHub).add")
+	if add == nil {
+		return
+	}
+	// creators that do not set the flag
+	var bare []string
+	for _, f := range w.AllFuncs {
+		if !w.inModule(f) || strings.HasSuffix(w.Pos(f.Pos()), "_test.go") {
+			continue
+		}
+		EachInstr(f, func(in ssa.Instruction) {
+			al, ok := in.(*ssa.Alloc)
+			if !ok || typeShort(al.Type()) != "mapChannel" || !al.Heap {
+				return
+			}
+			setsOrdered := false
+			for _, r := range *al.Referrers() {
+				if fa, ok := r.(*ssa.FieldAddr); ok && fieldAddrIs(fa, "mapChannel", "ordered") {
+					setsOrdered = true
+				}
+			}
+			if !setsOrdered {
+				bare = append(bare, shortFuncName(f))
+			}
+		})
+	}
+	if len(bare) == 0 {
+		c.CheckAt("C21.R6", "every creator of a map channel sets its ordering flag", w.Pos(add.Pos()), true, "")
+		return
+	}
+	// the upgrade in add: a store ordered = true into an existing channel, with the cache marked dirty
+	okUp := false
+	for _, st := range storesToField(add, false, "mapChannel", "ordered") {
+		fa := st.Addr.(*ssa.FieldAddr)
+		if _, isAlloc := fa.X.(*ssa.Alloc); isAlloc {
+			continue // part of the literal of a new channel
+		}
+		v, known := boolConst(st.Val)
+		fromOpts := strings.HasSuffix(D(st.Val), ".ordered")
+		guardedByOpts := Guarded(st, func(g Guard) bool { return g.Pol && strings.HasSuffix(D(g.Cond), "MapChannelOptions.ordered") })
+		dirty := false
+		for _, d := range storesToField(add, false, "mapChannel", "sortedKeysDirty") {
+			if d.Block() == st.Block() {
+				dirty = true
+			}
+		}
+		if ((known && v && guardedByOpts) || fromOpts) && dirty {
+			okUp = true
+		}
+	}
+	c.CheckAt("C21.R6", "(*centrifuge.mapHub).add upgrades a channel created without its ordering flag ("+strings.Join(bare, ", ")+")", w.Pos(add.Pos()), okUp,
+		"a channel first touched by a state or stream read exists unordered; without the upgrade an ordered channel read before its first publish is paginated by key, not by score")
+}
+
+// runSurveyReplyAddressed (C41.R4): survey ids are per-node counters, so different nodes routinely have
+// surveys with the same id in flight, and a response is matched by id alone. The response must
+// therefore be published to the requesting node only — on every path the node argument is the
+// requester's id (never empty, which means broadcast).
+func runSurveyReplyAddressed(c *Ctx) {
+	w := c.W
+	h := w.Func("centrifuge", "(*Node).handleSurveyRequest")
+	if h == nil || len(h.Params) < 2 {
+		return
+	}
+	from := h.Params[1]
+	n := 0
+	for _, f := range WithClosures(h) {
+		for _, ci := range CallsIn(f, false, w.calleeIs("Node.publishControl")) {
+			n++
+			arg := ci.Common().Args[len(ci.Common().Args)-1]
+			ok := everyPhiEdge(resolveCell(arg), func(v ssa.Value) bool {
+				v = resolveCell(v)
+				if v == ssa.Value(from) {
+					return true
+				}
+				if fv, isFV := v.(*ssa.FreeVar); isFV {
+					return fv.Name() == from.Name()
+				}
+				d := D(v)
+				return d == "arg:"+from.Name() || d == "fv:"+from.Name()
+			}, 0)
+			c.Check("C41.R4", ci, "survey response is published to the requesting node on every path", ok,
+				"node argument "+D(arg)+": an empty node id broadcasts the response; another node with a pending survey of the same numeric id takes it as this node's answer to its own survey")
+		}
+	}
+	c.Anchor("C41.R4", "publishControl call answering a survey request", n >= 1)
+}
+
+// runLeaveBranchArgs (C23.R6): the add script's leave branch (is_leave == "1") deletes the key's state and
+// its per-key version fields; it can only do so for the ARGV names it is given. Every ARGV local used in
+// a redis.call under that condition must be supplied (not a constant empty string) by the call site
+// that passes is_leave = "1".
+func runLeaveBranchArgs(c *Ctx) {
+	w := c.W
+	sc := w.LuaScripts()["map_broker_add.lua"]
+	if sc == nil {
+		return
+	}
+	// ARGV index of is_leave
+	leaveIdx := 0
+	for name, bind := range sc.Locals {
+		if name == "is_leave" && strings.HasPrefix(bind, "ARGV[") {
+			fmt.Sscanf(bind, "ARGV[%d]", &leaveIdx)
+		}
+	}
+	if !c.Anchor("C23.R6", "is_leave bound to an ARGV in map_broker_add.lua", leaveIdx > 0) {
+		return
+	}
+	need := map[int]string{}
+	for _, ev := range sc.Events {
+		if ev.Kind != "call" || !condsContain(ev.Conds, "is_leave == \"1\"") {
+			continue
+		}
+		// only deletions of per-key data from the channel's state keys: what must disappear with the key
+		// (the cleanup-registration bookkeeping in the same branch is repaired lazily by the worker)
+		if !(ev.Cmd == "hdel" || ev.Cmd == "zrem" || ev.Cmd == "del") || len(ev.Args) == 0 {
+			continue
+		}
+		stateKey := false
+		for _, t := range ev.Args {
+			if t.Kind == "name" {
+				stateKey = strings.HasPrefix(t.Text, "state_")
+				break
+			}
+		}
+		if !stateKey {
+			continue
+		}
+		for _, t := range ev.Args {
+			if t.Kind != "name" {
+				continue
+			}
+			if bind, ok := sc.Locals[t.Text]; ok && strings.HasPrefix(bind, "ARGV[") {
+				var i int
+				fmt.Sscanf(bind, "ARGV[%d]", &i)
+				if i > 0 && i != leaveIdx {
+					need[i] = t.Text
+				}
+			}
+		}
+	}
+	if !c.Anchor("C23.R6", "ARGV locals used by the leave branch", len(need) >= 2) {
+		return
+	}
+	sites := 0
+	for _, s := range w.scriptSites() {
+		isAdd := false
+		for _, n := range s.scripts {
+			if n == "map_broker_add.lua" {
+				isAdd = true
+			}
+		}
+		if !isAdd || leaveIdx-1 >= len(s.args) || s.args[leaveIdx-1] != "\"1\"" {
+			continue
+		}
+		sites++
+		for i, name := range need {
+			if i-1 >= len(s.args) {
+				continue
+			}
+			a := s.args[i-1]
+			c.Check("C23.R6", s.call, fmt.Sprintf("the removing call site supplies ARGV[%d] (%s), which the script's leave branch uses", i, name), a != "\"\"",
+				"the leave branch skips what it is not given a name for: with an empty "+name+" the key's stored version survives the removal in Redis, while the memory broker drops it with the key; a later publish with a lower version is then suppressed by one broker and accepted by the other")
+		}
+	}
+	c.Anchor("C23.R6", "add-script call site passing is_leave = \"1\"", sites >= 1)
+}
+
+// runPooledObjectReleased (C30.R4): a (de)compressor taken from a sync.Pool and kept in a struct field is
+// returned with Put exactly once: the function that calls Put(x.f) clears x.f before it returns, so
+// a later Close cannot put the same object again (two connections would then share one decompressor).
+func runPooledObjectReleased(c *Ctx) {
+	w := c.W
+	n := 0
+	for _, f := range w.AllFuncs {
+		if !w.inModule(f) || !strings.Contains(FuncName(f), "internal/websocket") || strings.HasSuffix(w.Pos(f.Pos()), "_test.go") {
+			continue
+		}
+		for _, put := range CallsIn(f, false, w.calleeIs("Pool.Put")) {
+			arg := put.Common().Args[len(put.Common().Args)-1]
+			for i := 0; i < 3; i++ {
+				switch x := arg.(type) {
+				case *ssa.MakeInterface:
+					arg = x.X
+				case *ssa.ChangeInterface:
+					arg = x.X
+				}
+			}
+			u, ok := arg.(*ssa.UnOp)
+			if !ok {
+				continue
+			}
+			fa, ok := u.X.(*ssa.FieldAddr)
+			if !ok {
+				continue
+			}
+			typ, fld, ok := FieldOf(fa)
+			if !ok {
+				continue
+			}
+			n++
+			cleared := func(x ssa.Instruction) bool {
+				st, ok := x.(*ssa.Store)
+				if !ok {
+					return false
+				}
+				fa2, ok := st.Addr.(*ssa.FieldAddr)
+				return ok && fieldAddrIs(fa2, typ, fld) && isNilConst(st.Val)
+			}
+			bad := PathQ{Stop: cleared, Goal: isReturn}.From(put)
+			c.Check("C30.R4", put, "a pooled object held in "+typ+"."+fld+" is forgotten by its owner in the function that returns it to the pool", bad == nil,
+				"the owner keeps a reference to an object it already returned: the next Close puts it a second time, two connections draw the same (de)compressor and one resets it in the middle of the other's message")
+		}
+	}
+	c.Anchor("C30.R4", "Pool.Put of a field-held object in the websocket package", n >= 1)
+}
+
+// runEncoderPooledAfterWrite (C32.R4): the HTTP-stream handler's Protobuf branch writes the output of a
+// pooled data encoder; the encoder goes back to the pool only after that output was written (or the
+// output is a copy). Returning it first lets another connection overwrite the bytes being written.
+func runEncoderPooledAfterWrite(c *Ctx) {
+	w := c.W
+	hs := w.Func("centrifuge", "(*HTTPStreamHandler).ServeHTTP")
+	if hs == nil {
+		return
+	}
+	n := 0
+	for _, f := range w.Deep(hs, 2).Funcs {
+		var finishes, writes, puts []ssa.Instruction
+		EachInstr(f, func(in ssa.Instruction) {
+			ci := asCall(in)
+			if ci == nil {
+				return
+			}
+			switch {
+			case ci.Common().IsInvoke() && strings.HasPrefix(ci.Common().Method.Name(), "Finish"):
+				finishes = append(finishes, in)
+			case ci.Common().IsInvoke() && ci.Common().Method.Name() == "Write":
+				writes = append(writes, in)
+			default:
+				if cal := ci.Common().StaticCallee(); cal != nil && cal.Name() == "PutDataEncoder" {
+					puts = append(puts, in)
+				}
+			}
+		})
+		for _, fin := range finishes {
+			fv := fin.(ssa.Value)
+			for _, wr := range writes {
+				if asCall(wr).Common().Args[0] != fv {
+					continue
+				}
+				n++
+				noCopy := asCall(fin).Common().Method.Name() != "Finish"
+				early := false
+				for _, p := range puts {
+					if Precedes(p, wr) || (Reaches(p, wr) && !Reaches(wr, p)) {
+						early = true
+					}
+				}
+				c.Check("C32.R4", wr, "encoder output is written before the encoder returns to the pool", !early,
+					"the encoder (and, without a copying Finish, the very buffer being written) is shared through the pool: another connection encoding meanwhile overwrites the frame this connection is still writing")
+				if noCopy {
+					c.Check("C32.R4", wr, "a non-copying Finish is written while the encoder is still owned", !early, "FinishNoCopy aliases the encoder's buffer")
+				}
+			}
+		}
+	}
+	c.Anchor("C32.R4", "write of the data encoder's output in the HTTP-stream handler", n >= 1)
 }
 
 // runControlBeforeLocal (C27.R5): a node-level operation publishes its control message before it
